@@ -422,7 +422,14 @@ fn drive(run: u64, seed: u64, index_base: u64, port: u16, quiet: Duration) -> Ru
         n_resp += 1;
     }
     let exit = match w.join_within(Duration::from_secs(1)) {
-        Ok(true) => "clean".to_string(),
+        Ok(true) => {
+            // ScmSocket does not own its descriptor: close both ends now that the worker is gone
+            unsafe {
+                libc::close(w.scm_main_to_worker.raw_fd());
+                libc::close(w.scm_worker_to_main.raw_fd());
+            }
+            "clean".to_string()
+        }
         Ok(false) => "hang".to_string(),
         Err(p) => format!("panic: {p}"),
     };
